@@ -459,11 +459,18 @@ func init() {
 	}, selAny)
 	// a callback that marks members: marks put on members of a set surface on the set, next to the set's own
 	defOp("TransformMark", "", func(t *taskState, a [3]cty.Value, p [3]int) opRes {
-		n := 0
 		every := 1 + p[0]%4
 		r, err := cty.Transform(a[0], func(pa cty.Path, v cty.Value) (cty.Value, error) {
-			n++
-			if n%every == 0 && len(pa) > 0 {
+			// which members get the mark depends on where they are, not on when they are visited (sibling order is
+			// not promised)
+			h := 0
+			for _, ch := range []byte(cty.VerifFingerprintPath(pa)) {
+				h = h*31 + int(ch)
+			}
+			if h < 0 {
+				h = -h
+			}
+			if h%every == 0 && len(pa) > 0 {
 				return v.Mark("tm"), nil
 			}
 			return v, nil
